@@ -1280,6 +1280,28 @@ fn outage_stratum(mut plan: Value) -> Value {
     plan
 }
 
+/// A queue that sits idle for a long time - 1 100 / 2 500 / 5 000 flush intervals without an entry - before the
+/// ending of the run (join handle dropped, or forgotten and the last queue handle dropped): one plan in 25.
+fn long_idle_stratum(mut plan: Value) -> Value {
+    let h = mix(ju(plan.get("sched").unwrap_or(&Value::Null), "seed", 0), 0x1d7e);
+    if h % 25 == 0 && plan.get("lossy_shutdown").and_then(|x| x.as_bool()) != Some(true) {
+        let n = [1_100u64, 1_100, 2_500, 5_000][(h / 25 % 4) as usize];
+        let idle = json!({"op":"sleep","ns": n.saturating_mul(ju(&plan, "flush_interval_ns", 1_000_000))});
+        let forget = js(&plan, "end", "") == "forget";
+        let key = if forget { "post" } else { "main_ops" };
+        if let Some(ops) = plan.get_mut(key).and_then(|o| o.as_array_mut()) {
+            if forget {
+                ops.insert(0, idle);
+            } else {
+                ops.push(idle);
+            }
+            plan["sched"]["max_steps"] = json!(600_000);
+            plan["long_idle_intervals"] = json!(n);
+        }
+    }
+    plan
+}
+
 /// The shutdown timeout has no say while the queue is alive: a fifth of the flush-barrier plans run with one of
 /// 1 ms / 50 ms / 2 s (far below the stalls of the stream) and, so that it has no say at the end either, wait for the
 /// writer to be idle before the join handle is dropped.
@@ -1328,7 +1350,7 @@ impl Scenario for QueueFifo {
         4
     }
     fn generate(&self, rng: &mut Rng, tier: Tier) -> Value {
-        outage_stratum(huge_timeout_stratum(gen_c01(rng, tier)))
+        long_idle_stratum(outage_stratum(huge_timeout_stratum(gen_c01(rng, tier))))
     }
     fn run(&self, plan: &Value) -> Report {
         let (out, run) = run_queue_plan(plan);
@@ -2330,7 +2352,7 @@ impl Scenario for QueueShutdown {
         4
     }
     fn generate(&self, rng: &mut Rng, tier: Tier) -> Value {
-        outage_stratum(huge_timeout_stratum(gen_c05(rng, tier)))
+        long_idle_stratum(outage_stratum(huge_timeout_stratum(gen_c05(rng, tier))))
     }
     fn run(&self, plan: &Value) -> Report {
         let (out, run) = run_queue_plan(plan);
